@@ -18,7 +18,7 @@ func nativeReplay(cfg *CheckCfg, entry, replayPath, label string) (bool, string,
 		return false, "", err
 	}
 	defer os.RemoveAll(tmp)
-	pkgDir := cfg.Replay.TestPkgDir
+	pkgDir := entryTestDir(cfg, entry)
 	pkgName, err := packageName(filepath.Join(*repoDir, pkgDir))
 	if err != nil {
 		return false, "", err
@@ -107,13 +107,14 @@ type traceSample struct {
 	Reached []string
 	Outcome string
 	Bounds  map[string]int
+	Dir     string
 }
 
 // nativeTraces runs the sampled paths natively in one go test invocation and
 // returns how many agreed with the symbolic execution (same outcome, same
 // sequence of Reach labels, no failed assertion) and a description of the
 // disagreements.
-func nativeTraces(cfg *CheckCfg, samples []traceSample) (int, []string, error) {
+func nativeTraces(cfg *CheckCfg, pkgDir string, samples []traceSample) (int, []string, error) {
 	if len(samples) == 0 {
 		return 0, nil, nil
 	}
@@ -122,7 +123,6 @@ func nativeTraces(cfg *CheckCfg, samples []traceSample) (int, []string, error) {
 		return 0, nil, err
 	}
 	defer os.RemoveAll(tmp)
-	pkgDir := cfg.Replay.TestPkgDir
 	pkgName, err := packageName(filepath.Join(*repoDir, pkgDir))
 	if err != nil {
 		return 0, nil, err
